@@ -399,8 +399,36 @@ func checkBackoffCaps(c *Ctx, r *Report) {
 		collect(f, out, 3, map[*ssa.Function]bool{})
 		return out
 	}
-	a := caps(c.Fn(pkgHealth, "calculateBackoff"))
-	b := caps(c.Fn(pkgCore, "(*RetryHandler).markEndpointUnhealthy"))
+	// the back-off implementations are found by what they do: they read Endpoint.BackoffMultiplier and (themselves or
+	// in package-local helpers) compare against constant caps
+	pkgCaps := func(pkg string) (map[string]bool, *ssa.Function) {
+		out := map[string]bool{}
+		var first *ssa.Function
+		for _, f := range c.Funcs {
+			if !strings.HasSuffix(fnPkgPath(f), pkg) || f.Parent() != nil {
+				continue
+			}
+			reads := false
+			eachInstr(f, func(in ssa.Instruction) {
+				if ld, ok := in.(*ssa.UnOp); ok && ld.Op == token.MUL && isField(ld.X, pkgDomain, "Endpoint", "BackoffMultiplier") {
+					reads = true
+				}
+			})
+			if !reads {
+				continue
+			}
+			k := caps(f)
+			if len(k) > 0 && first == nil {
+				first = f
+			}
+			for x := range k {
+				out[x] = true
+			}
+		}
+		return out, first
+	}
+	a, fa := pkgCaps(pkgHealth)
+	b, fb := pkgCaps(pkgCore)
 	key := "backoff-caps"
 	if len(a) == 0 || len(b) == 0 {
 		r.Undecided("C07-R5", key, token.NoPos, "could not find cap comparisons in both back-off implementations")
@@ -413,9 +441,9 @@ func checkBackoffCaps(c *Ctx, r *Report) {
 		}
 	}
 	if same {
-		r.OK("C07-R5", key, c.Fn(pkgHealth, "calculateBackoff").Pos(), fmt.Sprintf("both implementations cap at %v", sortedKeys(a)))
+		r.OK("C07-R5", key, fa.Pos(), fmt.Sprintf("both implementations cap at %v", sortedKeys(a)))
 	} else {
-		r.Bad("C07-R5", key, c.Fn(pkgCore, "(*RetryHandler).markEndpointUnhealthy").Pos(), fmt.Sprintf("health checker caps at %v but the retry handler caps at %v: an endpoint failed by the proxy follows a different schedule", sortedKeys(a), sortedKeys(b)))
+		r.Bad("C07-R5", key, fb.Pos(), fmt.Sprintf("health checker caps at %v but the retry handler caps at %v: an endpoint failed by the proxy follows a different schedule", sortedKeys(a), sortedKeys(b)))
 	}
 }
 
